@@ -4,7 +4,7 @@ import json, sys, os
 sid, caught, confirm = sys.argv[1], sys.argv[2], sys.argv[3]
 d = f"/verif/seeded/{sid}"
 a = json.load(open(f"{d}/agent_meta.json"))
-m = {"property": a.get("property", sid.split("-")[0]), "summary": a.get("summary"), "needs_to_manifest": a.get("needs"),
+m = {"property": a.get("property", sid.split("-")[0]), "summary": a.get("summary"), "needs_to_manifest": a.get("needs_to_manifest", a.get("needs")),
      "agent_tests_run": a.get("tests_run"),
      "confirmed_by_me": confirm,
      "how_confirmed": "tools/confirm_seed.sh: scratch worktree of /repo HEAD, demo.py exit status on the clean tree and with patch.diff applied, relevant pytest files with the patch applied",
